@@ -355,6 +355,34 @@ def _routes(ctx):
     ctx.shape('multisec_regex.finditer(text)' in txt and 'SecUnpacker(' in txt
               and '.extend(unpacker.sec_list)' in txt, 'ROUTE',
               'find_sec: every multisec match -> SecUnpacker -> extend in order')
+    # find_sec reports every unpacked number (no filter on the extension)
+    fs = ctx.repo.func('plss_preprocess:find_sec')
+    for c in walk_local(fs.node):
+        if isinstance(c, ast.Call) and isinstance(c.func, ast.Attribute) and c.func.attr in ('extend', 'append') and c.args:
+            a0 = c.args[0]
+            filt = isinstance(a0, (ast.GeneratorExp, ast.ListComp, ast.SetComp)) and any(g.ifs for g in a0.generators)
+            dd = any(isinstance(x, ast.Call) and (dotted(x.func) or '') in ('set', 'dict.fromkeys', 'frozenset', 'sorted')
+                     for x in ast.walk(a0))
+            ctx.check(not (filt or dd), 'ROUTE', 'find_sec adds every number of every unpacked match (duplicates kept)',
+                      f"`{norm(c)[:60]}`",
+                      f"`{norm(c)[:80]}` filters / dedups what the unpacker returned: a number written twice is "
+                      f"reported once, so find_sec disagrees with PLSSDesc on 'Sections 1 - 3, 2 - 4'",
+                      key="ROUTE|find_sec|filter", where=common.loc(fs, c))
+    # the warnings of the section unpacker (nonsequential ...) reach the finder's flags
+    sf = ctx.repo.func('SecFinder.findall_matching_sec')
+    fwd = {'flags': False, 'flag_lines': False}
+    for c in ast.walk(sf.node):
+        if isinstance(c, ast.Call) and isinstance(c.func, ast.Attribute) and c.func.attr == 'extend' and c.args \
+                and isinstance(c.args[0], ast.Attribute) and c.args[0].attr in fwd \
+                and norm(c.func.value) == f"self.{c.args[0].attr}" and norm(c.args[0].value) != 'self':
+            fwd[c.args[0].attr] = True
+    built = [c for c in ast.walk(sf.node) if isinstance(c, ast.Call) and dotted(c.func) == 'SecUnpacker']
+    if built:
+        ctx.check(all(fwd.values()), 'ROUTE', "SecFinder takes over the SecUnpacker's flags and flag lines",
+                  detail_bad=f"SecFinder builds a SecUnpacker but does not extend its own "
+                             f"{[k for k, v in fwd.items() if not v]} from it: a descending range found through PLSSDesc "
+                             f"raises no nonsequential_sections warning",
+                  key="ROUTE|SecFinder|unpacker-flags", where=common.loc(sf, built[0]))
     fi = ctx.repo.func('SecFinder.findall_matching_sec.new_match')
     txt = ' '.join(norm(s) for s in fi.node.body)
     ctx.shape('SecUnpacker(mo.group(0))' in txt and 'unpacker.sec_list' in txt, 'ROUTE',
